@@ -204,7 +204,20 @@ func Upgrade8To10(old, new string, logger *log.Logger) (retErr error) {
 		if err != nil {
 			return fmt.Errorf("reading upgrade plan: %w", err)
 		}
-		if err := p.Execute(plan.NewExecutor()); err != nil {
+		if fsutil.DirExists(new) {
+			// The new directory is only ever put in place by the plan's rename, so that
+			// rename completed before the interruption. The earlier operations must not
+			// be replayed: they would re-create the temporary directory and the rename
+			// would then fail because its destination exists (or, once removal of the old
+			// directory has begun, the source database would be gone). Only the clean-up
+			// remains.
+			if err := os.RemoveAll(tmpName(new)); err != nil {
+				return fmt.Errorf("removing temporary snapshot directory %s: %w", tmpName(new), err)
+			}
+			if err := os.RemoveAll(old); err != nil {
+				return fmt.Errorf("removing old snapshot directory %s: %w", old, err)
+			}
+		} else if err := p.Execute(plan.NewExecutor()); err != nil {
 			return fmt.Errorf("executing resumed upgrade plan: %w", err)
 		}
 		os.Remove(planPath)
